@@ -586,6 +586,11 @@ func c7val(v any) string {
 		return fmt.Sprintf("q%d_1", x)
 	case int64:
 		return fmt.Sprintf("q%d_1", x)
+	case bool:
+		if x {
+			return "b1"
+		}
+		return "b0"
 	case string:
 		if x == "" {
 			return "s-"
